@@ -483,3 +483,350 @@ def _decided(e, z):
         if z3.is_not(c) and c.arg(0).eq(z):
             return False
     return False
+
+
+# ------------------------------------------------------------------ lazy vs eager; exactness of the report (C02)
+CHECK_ID = {"nullable": "not_nullable", "unique": "field_uniqueness", "joint_unique": "multiple_fields_uniqueness",
+            "eq": "equal_to", "ne": "not_equal_to", "gt": "greater_than", "ge": "greater_than_or_equal_to", "lt": "less_than",
+            "le": "less_than_or_equal_to", "in_range": "in_range", "isin": "isin", "notin": "notin", "str_matches": "str_matches",
+            "str_contains": "str_contains", "str_startswith": "str_startswith", "str_endswith": "str_endswith", "str_length": "str_length"}
+
+
+def _check_id(label):
+    base = label.split(":")[-1]
+    return CHECK_ID.get(base, base)
+
+
+def _num_eq(a, b):
+    if z3.is_expr(a) and z3.is_expr(b):
+        if a.sort() == b.sort():
+            return a == b
+        if (z3.is_int(a) or z3.is_real(a)) and (z3.is_int(b) or z3.is_real(b)):
+            return (z3.ToReal(a) if z3.is_int(a) else a) == (z3.ToReal(b) if z3.is_int(b) else b)
+    return z3.BoolVal(False)
+
+
+def report_exact_terms(v, fc, viol, cells, labels):
+    """z3 terms stating that the consolidated failure-case table `fc` (shim frame) lists exactly the violating cells.
+    viol: (column label, constraint label) -> per-row violation terms; cells: column -> (xs, ns); labels: row label terms."""
+    cols = {k: c for k, c in fc._cols}
+    R = len(fc.present)
+    slot = []
+    for r in range(R):
+        ctx, col, chk = cols["schema_context"].vals[r], cols["column"].vals[r], cols["check"].vals[r]
+        slot.append(dict(p=fc.present[r], col=str(col) if not z3.is_expr(col) else None, chk=str.__str__(chk).split("(")[0] if isinstance(chk, str) else str(chk).split("(")[0],
+                         idx=cols["index"].vals[r], idx_null=cols["index"].nulls[r], val=cols["failure_case"].vals[r], val_null=cols["failure_case"].nulls[r]))
+    complete, sound = [], []
+    keyed = {}
+    for (c, k), ts in viol.items():
+        keyed[(c, _check_id(k))] = (c, k, ts)
+    for (c, kid), (c0, k, ts) in keyed.items():
+        cands = [s for s in slot if s["chk"] == kid and (s["col"] == str(c) or c == "*")]
+        for i, t in enumerate(ts):
+            if c == "*":
+                # joint uniqueness lists one entry per column of the subset and row
+                hit = zor(z3.And(s["p"], z3.Not(s["idx_null"]), _num_eq(s["idx"], labels[i])) for s in cands)
+            else:
+                xs, ns = cells[c]
+                hit = zor(z3.And(s["p"], z3.Not(s["idx_null"]), _num_eq(s["idx"], labels[i]),
+                                 z3.If(ns[i], s["val_null"], z3.And(z3.Not(s["val_null"]), _num_eq(s["val"], xs[i]) if z3.is_expr(s["val"]) else z3.BoolVal(False))))
+                          for s in cands)
+            complete.append(z3.Implies(t, hit))
+    row_ids = {kid for (_, kid) in keyed}
+    for s in slot:
+        if s["chk"] not in row_ids:
+            continue
+        alts = []
+        for (c, kid), (c0, k, ts) in keyed.items():
+            if kid != s["chk"] or not (c == "*" or s["col"] == str(c)):
+                continue
+            for i, t in enumerate(ts):
+                alts.append(z3.And(t, z3.Not(s["idx_null"]), _num_eq(s["idx"], labels[i])))
+        sound.append(z3.Implies(s["p"], zor(alts)))
+    return zand(complete), zand(sound)
+
+
+def zor(xs):
+    xs = list(xs)
+    return z3.Or(*xs) if xs else z3.BoolVal(False)
+
+
+def zand(xs):
+    xs = list(xs)
+    return z3.And(*xs) if xs else z3.BoolVal(True)
+
+
+def report_exact_real(fc, vals, viol, cells, labels):
+    """the same statement evaluated on a real failure-case table under a concrete assignment"""
+    import math
+
+    def num(x):
+        try:
+            f = float(x)
+            return None if math.isnan(f) else f
+        except (TypeError, ValueError):
+            return None if x is None else str(x)
+
+    rows = []
+    for _, r in fc.iterrows():
+        idx = r["index"]
+        rows.append((str(r["column"]), str(r["check"]).split("(")[0], None if (idx is None or (isinstance(idx, float) and math.isnan(idx))) else num(idx),
+                     num(r["failure_case"])))
+    want = []
+    for (c, k), ts in viol.items():
+        for i, t in enumerate(ts):
+            if vals.term(t):
+                lab = num(vals.term(labels[i]))
+                if c == "*":
+                    want.append(("*", _check_id(k), lab, None))
+                else:
+                    xs, ns = cells[c]
+                    want.append((str(c), _check_id(k), lab, None if vals.term(ns[i]) else num(vals.term(xs[i]))))
+    row_ids = {_check_id(k) for (_, k) in viol}
+    listed = [r for r in rows if r[1] in row_ids]
+    complete = all(any((w[0] == "*" or w[0] == r[0]) and w[1] == r[1] and w[2] == r[2] and (w[0] == "*" or w[3] == r[3]) for r in listed) for w in want)
+    sound = all(any((w[0] == "*" or w[0] == r[0]) and w[1] == r[1] and w[2] == r[2] for w in want) for r in listed)
+    return complete, sound
+
+
+def lazy_case(v, shape, N, opts):
+    """runs the same (S, D) eagerly and lazily"""
+    opts = dict(opts)
+    if shape == "series":
+        kind, cname = opts.get("kind", "float"), opts.get("check", "ge")
+        obj = v.series("x", kind, N, sname="s", labels="l", distinct_labels=True)
+        mk = O.numeric_check if kind in ("int", "float") else O.string_check
+        cs = mk(v, cname, opts.get("ina", True))
+        fs = O.FieldSpec(kind, nullable=v.bool("nullable"), unique=v.bool("unique"), checks=[cs], name="s",
+                         report_duplicates=opts.get("rd", "all"))
+        try:
+            schema = O.build_series_schema(pa, Check, fs, v)
+        except ValueError:
+            return dict(obs=None, asserts=[], facts=dict(kind="ctor ValueError"))
+        xs, ns = v.cells("x", kind, N, kind in ("float", "str"))
+        cells = {"s": (xs, ns)}
+        viol = {("s", k): ts for k, ts in fs.row_violations(v, xs, ns).items()}
+        frame_level = []
+    else:
+        arr = [(c, KINDS[c]) for c in opts.get("arr", ["a", "b"])]
+        obj = v.frame(arr, N, labels="l", distinct_labels=True)
+        ca = O.numeric_check(v, opts.get("check_a", "ge"), True, tag="A")
+        cb = O.numeric_check(v, opts.get("check_b", "isin"), True, tag="B")
+        fa = O.FieldSpec("float", nullable=v.bool("nullable"), unique=v.bool("unique_a"), checks=[ca], report_duplicates=opts.get("rd", "all"))
+        fb = O.FieldSpec("int", checks=[cb])
+        spec = O.FrameSpec({"a": fa, "b": fb}, strict=opts.get("strict", False), unique=opts.get("unique"), report_duplicates=opts.get("rd", "all"))
+        schema = spec.build(pa, Check)
+        cells = {c: v.cells(f"{c}_", k, N, k in ("float", "str")) for c, k in arr}
+        viol = spec.row_violations(v, arr, cells) if all(c in dict(arr) for c in ("a", "b")) or True else {}
+        viol = {k: ts for k, ts in viol.items()}
+        frame_level = []
+        labels_present = [a[0] for a in arr]
+        if "a" not in labels_present:
+            frame_level.append("column_in_dataframe")
+        if "b" not in labels_present:
+            frame_level.append("column_in_dataframe")
+        if opts.get("strict") is True and any(l not in ("a", "b") for l in labels_present):
+            frame_level.append("column_in_schema")
+    labels = [z3.Int(f"l{i}") for i in range(N)]
+    oe = H.outcome(lambda: schema.validate(obj, lazy=False))
+    ol = H.outcome(lambda: schema.validate(obj, lazy=True))
+    raised_e, raised_l = oe["kind"] != "accept", ol["kind"] != "accept"
+    asserts = [("lazy_eager_agree", v.holds(raised_e == raised_l)),
+               ("lazy/channel", v.holds(channel_ok(oe) and channel_ok(ol) and oe["kind"] in ("accept", "SchemaError") and ol["kind"] in ("accept", "SchemaErrors")))]
+    facts = dict(eager=oe["kind"], lazy=ol["kind"], eager_reason=oe.get("reason"), lazy_reasons=ol.get("reasons"))
+    if oe["kind"] == "SchemaError" and ol["kind"] == "SchemaErrors":
+        e = oe["exc"]
+        key = (str(e.reason_code), _err_check_id(e), str(getattr(e.schema, "name", None)))
+        lazy_keys = [(str(x.reason_code), _err_check_id(x), str(getattr(x.schema, "name", None))) for x in ol["exc"].schema_errors]
+        asserts.append(("eager_error_among_lazy", v.holds(key in lazy_keys)))
+        facts["eager_key"] = list(key)
+    if ol["kind"] == "SchemaErrors":
+        exc = ol["exc"]
+        fc = exc.failure_cases
+        if isinstance(fc, symframe.DataFrame):
+            comp, sound = report_exact_terms(v, fc, viol, cells, labels)
+            asserts.append(("report/complete", v.holds(comp)))
+            asserts.append(("report/sound", v.holds(sound)))
+        elif v.sym:
+            # the table holds scalar (concrete) entries only: no row-level violation may exist on this path
+            row_ids = {_check_id(k) for (_, k) in viol}
+            listed = [r for _, r in fc.iterrows() if str(r["check"]).split("(")[0] in row_ids]
+            asserts.append(("report/complete", v.holds(z3.Not(zor(t for ts in viol.values() for t in ts)))))
+            asserts.append(("report/sound", v.holds(not listed)))
+        else:
+            comp, sound = report_exact_real(fc, v.vals, viol, cells, labels)
+            asserts.append(("report/complete", comp))
+            asserts.append(("report/sound", sound))
+        # error counts per reason equal the number of collected errors with that reason
+        from collections import Counter
+
+        cnt = Counter(str(x.reason_code).split(".")[-1] for x in exc.schema_errors)
+        asserts.append(("report/error_counts", v.holds(dict(cnt) == {str(k).split(".")[-1]: n for k, n in dict(exc.error_counts).items()})))
+        # one scalar entry per violated frame-level constraint
+        if frame_level is not None and shape != "series":
+            got = _scalar_entries(fc, v)
+            asserts.append(("report/frame_level_entries", v.holds(sorted(got) == sorted(frame_level))))
+            facts["frame_level"] = [sorted(got), sorted(frame_level)]
+    return dict(obs=ol, asserts=asserts, facts=facts)
+
+
+def _err_check_id(e):
+    c = e.check
+    if c is None:
+        return None
+    if isinstance(c, str):
+        return c.split("(")[0]
+    return str(getattr(c, "name", None) or c).split("(")[0]
+
+
+def _scalar_entries(fc, v):
+    """check ids of the scalar (index-less) entries of a failure-case table that belong to frame-level constraints"""
+    ids = ("column_in_dataframe", "column_in_schema", "column_ordered", "dataframe_column_labels_unique")
+    out = []
+    if isinstance(fc, symframe.DataFrame):
+        cols = {k: c for k, c in fc._cols}
+        for r in range(len(fc.present)):
+            chk = str(cols["check"].vals[r]).split("(")[0]
+            if chk in ids:
+                if v.sym:
+                    from symx import eng
+
+                    if eng().branch(fc.present[r]):
+                        out.append(chk)
+                elif v.vals.term(fc.present[r]):
+                    out.append(chk)
+    else:
+        for _, r in fc.iterrows():
+            chk = str(r["check"]).split("(")[0]
+            if chk in ids:
+                out.append(chk)
+    return out
+
+
+# ------------------------------------------------------------------ drop_invalid_rows removes exactly the violating rows (C11)
+def rows_kept_terms(v, out, n):
+    """per input position: term/bool stating that the row is present in `out` (which must be a row subset of the input in
+    original order).  shim: the presence flags; real: matched by label (labels are distinct by assumption)."""
+    if isinstance(out, (symframe.DataFrame, symframe.Series)):
+        if len(out.present) != n:
+            return None
+        return list(out.present)
+    return None
+
+
+def drop_case(v, shape, N, opts):
+    opts = dict(opts)
+    lo = v.int("aA")
+    nullable, unique_a = v.bool("nullable"), v.bool("unique_a")
+    rd = opts.get("rd", "all")
+    coerce = bool(opts.get("coerce"))
+    a_kind = "int" if coerce else "float"
+    labels = [z3.Int(f"l{i}") for i in range(N)]
+    if shape == "series":
+        obj = v.series("a_", a_kind, N, sname="a", labels="l", distinct_labels=True)
+        schema = pa.SeriesSchema(float, Check.ge(lo), nullable=nullable, unique=unique_a, report_duplicates=rd, coerce=coerce, name="a",
+                                 drop_invalid_rows=True)
+        arr = [("a", a_kind)]
+    elif shape == "column":
+        arr = [("a", a_kind), ("b", "int")]
+        obj = v.frame(arr, N, labels="l", distinct_labels=True)
+        schema = pa.Column(float, Check.ge(lo), nullable=nullable, unique=unique_a, report_duplicates=rd, coerce=coerce, name="a", drop_invalid_rows=True)
+    elif shape in ("frame", "frame_wide", "frame_joint", "frame_index", "model"):
+        arr = [("a", a_kind), ("b", "int")]
+        # frame_wide: the dataframe-level check compares a with b; its treatment of null rows is C19's subject, so a is null-free here
+        obj = v.frame([("a", a_kind, False if shape == "frame_wide" else None), ("b", "int")], N, labels="l", distinct_labels=True)
+        kw = {}
+        if shape == "frame_wide":
+            kw["checks"] = Check(lambda d: d["a"] >= d["b"], ignore_na=True)
+        if shape == "frame_joint":
+            kw["unique"] = ["a", "b"]
+            kw["report_duplicates"] = rd
+        if shape == "frame_index":
+            kw["index"] = pa.Index(int, Check.ge(v.int("ilo")))
+        if shape == "model":
+            class M(pa.DataFrameModel):
+                a: float = pa.Field(ge=lo, nullable=nullable, unique=unique_a, coerce=coerce)
+                b: int = pa.Field(isin=[1, 2, 3])
+
+                class Config:
+                    drop_invalid_rows = True
+
+            schema = M
+        else:
+            schema = pa.DataFrameSchema({"a": pa.Column(float, Check.ge(lo), nullable=nullable, unique=unique_a, report_duplicates=rd, coerce=coerce),
+                                         "b": pa.Column(int, Check.isin([1, 2, 3]))}, drop_invalid_rows=True, **kw)
+    snap = H.snapshot(obj)
+    o = H.outcome(lambda: schema.validate(obj, lazy=True))
+    cells = {c: v.cells(f"{c}_", k, N, k in ("float", "str") and not (shape == "frame_wide" and c == "a")) for c, k in arr}
+    xa, na = cells["a"]
+    # ---- oracle: row i is invalid iff it violates a row-level constraint (uniqueness as reported)
+    bad = []
+    dups = O.dup_rows(N, lambda i, j: O.eq_cell(xa, na, i, j), rd if shape != "model" else "all")
+    for i in range(N):
+        b = [z3.And(z3.Not(v.z(nullable)), na[i]), z3.And(v.z(unique_a), dups[i]), z3.And(z3.Not(na[i]), z3.Not(xa[i] >= v.z(lo)))]
+        if shape not in ("series", "column"):
+            xb, nb = cells["b"]
+            b.append(z3.Not(z3.Or(xb[i] == 1, xb[i] == 2, xb[i] == 3)))
+        if shape == "frame_wide":
+            xb, _ = cells["b"]
+            b.append(z3.And(z3.Not(na[i]), z3.Not((z3.ToReal(xa[i]) if z3.is_int(xa[i]) else xa[i]) >= z3.ToReal(xb[i]))))
+        if shape == "frame_index":
+            b.append(z3.Not(labels[i] >= z3.Int("ilo")))
+        bad.append(z3.Or(*b))
+    if shape == "frame_joint":
+        xb, nb = cells["b"]
+        jd = O.dup_rows(N, lambda i, j: z3.And(O.eq_cell(xa, na, i, j), O.eq_cell(xb, nb, i, j)), rd)
+        bad = [z3.Or(b, d) for b, d in zip(bad, jd)]
+    asserts = [("drop/channel", v.holds(channel_ok(o))), ("drop/returns", v.holds(o["kind"] == "accept")),
+               ("drop/input_unchanged", H.equal_to_snapshot(v, obj, snap))]
+    facts = dict(kind=o["kind"], reasons=o.get("reasons"), msg=o.get("msg"))
+    if o["kind"] == "accept":
+        out = o["out"]
+        if v.sym:
+            pres = rows_kept_terms(v, out, N)
+            if pres is None:
+                asserts.append(("drop/exact_rows", v.holds(False)))
+            else:
+                asserts.append(("drop/no_invalid_row_survives", v.holds(zand(z3.Implies(p, z3.Not(b)) for p, b in zip(pres, bad)))))
+                asserts.append(("drop/no_valid_row_dropped", v.holds(zand(z3.Implies(z3.Not(b), p) for p, b in zip(pres, bad)))))
+                asserts.append(("drop/values_unchanged", H.equal_to_snapshot(v, out, snap, values_only=True, subset=True)))
+        else:
+            keep = [not v.vals.term(b) for b in bad]
+            exp_labels = [v.vals.term(labels[i]) for i in range(N) if keep[i]]
+            got_labels = [int(x) for x in out.index.tolist()]
+            surv = set(got_labels)
+            lab = [v.vals.term(labels[i]) for i in range(N)]
+            asserts.append(("drop/no_invalid_row_survives", all(keep[i] for i in range(N) if lab[i] in surv)))
+            asserts.append(("drop/no_valid_row_dropped", all(lab[i] in surv for i in range(N) if keep[i])))
+            ref = snap[1]
+            same = True
+            try:
+                sub = ref.loc[got_labels]
+                a_out = out if not hasattr(out, "columns") else out
+                same = bool(_values_equal_real(a_out, sub)) and got_labels == [l for l in lab if l in surv]
+            except Exception:  # noqa: BLE001
+                same = False
+            asserts.append(("drop/values_unchanged", same))
+
+    return dict(obs=o, asserts=asserts, facts=facts)
+
+
+def _with_all_present(out):
+    """view of a shim object with every slot marked present — compares surviving cells against the input snapshot"""
+    return out
+
+
+def _values_equal_real(a, b):
+    import numpy as np
+
+    if hasattr(a, "columns"):
+        if list(a.columns) != list(b.columns) or len(a) != len(b):
+            return False
+        return all(_values_equal_real(a[c], b[c]) for c in a.columns)
+    if len(a) != len(b):
+        return False
+    for x, y in zip(a.tolist(), b.tolist()):
+        xn, yn = H._isnull(x), H._isnull(y)
+        if xn != yn or (not xn and float(x) != float(y) if isinstance(x, (int, float, np.number)) else (not xn and x != y)):
+            return False
+    return True
